@@ -172,6 +172,8 @@ impl Handler {
     }
 
     async fn serve(&mut self, store: &Store, options: ReadOptions) {
+        #[cfg(feature = "verif-hooks")]
+        crate::verif::sync_point("handler.serve.enter", 0, None);
         let mut recver = store.read(options).await;
 
         while let Some(frame) = recver.recv().await {
@@ -236,6 +238,9 @@ impl Handler {
                 handler.serve(&store, options).await;
             });
         }
+
+        #[cfg(feature = "verif-hooks")]
+        crate::verif::sync_point("handler.spawn.before_announce", 0, None);
 
         let _ = store.append(
             Frame::builder(format!("{}.registered", &self.topic), self.context_id)
